@@ -175,6 +175,40 @@ class AbsArr:
 
     def __init__(self, shape=None):
         self.shape = tuple(shape) if shape is not None else None
+        self.pieces = []  # tabulation pieces written by `tabulate` loops: (const axes {axis: int}, free axes [(axis, digit, radix)], value)
+
+    def tabulated(self):
+        """the array as a SymArray if tabulate loops have written every entry exactly once (else None)"""
+        import itertools as _it
+
+        from . import bilinear
+
+        if not self.pieces or self.shape is None:
+            return None
+        shape = tuple(sp.sympify(x) for x in self.shape)
+        cax = sorted(self.pieces[0][0])
+        if any(sorted(p[0]) != cax for p in self.pieces):
+            return None
+        if any(not shape[a].is_Integer for a in cax):
+            return None
+        want = set(_it.product(*[range(int(shape[a])) for a in cax]))
+        have = [tuple(int(p[0][a]) for a in cax) for p in self.pieces]
+        if len(have) != len(set(have)) or set(have) != want:
+            return None  # some block was never written, or written twice
+        pieces = list(self.pieces)
+
+        def g(idx):
+            out = None
+            for consts, free, value in pieces:
+                sub = {d: (idx[a].value() if isinstance(idx[a], Num) else sp.sympify(idx[a])) for a, d, r in free}
+                v = bilinear.subst_value(bilinear.to_poly(value), sub)
+                if cax:
+                    sel = bilinear.Poly([bilinear.Term(1, [], [(as_num(idx[a], shape[a]), Num([(sp.Integer(int(consts[a])), shape[a])])) for a in cax])])
+                    v = bilinear.p_mul(sel, v)
+                out = v if out is None else bilinear.p_add(out, v)
+            return out
+
+        return SymArray(shape, g, "poly")
 
 
 class Return(Exception):
@@ -259,6 +293,8 @@ class Interp:
         if isinstance(s, ast.For):
             it = self.ev(s.iter, env)
             if isinstance(it, SymRange) and isinstance(s.target, ast.Name) and not s.orelse:
+                if self.tabulate_loop(s, it, env):
+                    return
                 self.map_loop(s, it, env)
                 return
             if isinstance(it, (SymRange, SymArray, SymList)):
@@ -278,6 +314,66 @@ class Interp:
                 raise Raised(s.lineno, "assert " + ast.unparse(s.test)[:100])
             return
         raise Unsupported("statement %s at line %d" % (type(s).__name__, getattr(s, "lineno", 0)))
+
+    def tabulate_loop(self, s, it, env):
+        """a nest `for i1 in range(n1): ... for ik in range(nk): arr[<ints and loop variables>] = f(i1..ik)` over symbolic ranges, the body of
+        each level being exactly the next level and the innermost body exactly one subscript store into an array allocated (np.zeros /
+        np.ndarray / np.empty) before the nest, every loop variable used as exactly one whole index.  The inductive invariant -- the entries
+        visited so far hold f, all others are untouched -- holds by construction for this shape; the store is recorded as a tabulation piece.
+        Returns False if the statement is not of this shape (nothing has been executed then)."""
+        loops = []
+        node = s
+        ranges = []
+        cur_it = it
+        while True:
+            if not (isinstance(node, ast.For) and isinstance(node.target, ast.Name) and not node.orelse and len(node.body) == 1):
+                return False
+            loops.append(node)
+            inner = node.body[0]
+            if isinstance(inner, ast.For):
+                node = inner
+                continue
+            break
+        store = loops[-1].body[0]
+        if not (isinstance(store, ast.Assign) and len(store.targets) == 1 and isinstance(store.targets[0], ast.Subscript) and isinstance(store.targets[0].value, ast.Name)):
+            return False
+        arr = env.get(store.targets[0].value.id)
+        if not isinstance(arr, AbsArr) or arr.shape is None:
+            return False
+        env2 = dict(env)
+        digits = []
+        for k, lp in enumerate(loops):
+            r = it if k == 0 else self.ev(lp.iter, env2)
+            if not isinstance(r, SymRange):
+                return False
+            d = sym.world().fresh_digit("q", r.n)
+            env2[lp.target.id] = d
+            digits.append((lp.target.id, d, sp.sympify(r.n)))
+        sl = store.targets[0].slice
+        comps = list(sl.elts) if isinstance(sl, ast.Tuple) else [sl]
+        if len(comps) != len(arr.shape):
+            return False
+        consts, free, used = {}, [], set()
+        for a, c in enumerate(comps):
+            v = self.ev(c, env2)
+            hit = [t for t in digits if v is t[1] or (isinstance(v, sp.Symbol) and v == t[1])]
+            if hit:
+                name, d, r = hit[0]
+                if name in used or not sym.same(r, arr.shape[a]):
+                    return False
+                used.add(name)
+                free.append((a, d, r))
+            elif isinstance(v, (int, np.integer)) or (isinstance(v, sp.Expr) and v.is_Integer):
+                consts[a] = int(v)
+            else:
+                return False
+        if len(used) != len(digits):
+            return False
+        value = self.ev(store.value, env2)
+        arr.pieces.append((consts, free, value))
+        for name, d, r in digits:
+            env[name] = r - 1
+        return True
 
     def map_loop(self, s, it, env):
         """`for i in range(n): <locals>; lst.append(f(i))` with symbolic n and lst empty before the loop.
@@ -370,6 +466,22 @@ class Interp:
         return self.ev(sl, env)
 
     def binop(self, op, a, b):
+        from .sym import Entry as _Entry
+
+        if isinstance(a, _Entry) or isinstance(b, _Entry) or type(a).__name__ == "Poly" or type(b).__name__ == "Poly":
+            from . import bilinear
+
+            if isinstance(op, ast.Mult):
+                return bilinear.p_mul(a, b)
+            if isinstance(op, ast.Add):
+                return bilinear.p_add(a, b)
+            if isinstance(op, ast.Sub):
+                return bilinear.p_add(a, bilinear.p_mul(bilinear.Poly([bilinear.Term(-1)]), b))
+            if isinstance(op, ast.Pow) and isinstance(b, _Entry) and isinstance(a, (int, sp.Integer)) and not b.conj:
+                return _Entry("(%d)**%s" % (int(a), b.name), b.idx)  # an entrywise function of one input array: a derived input array
+            raise Unsupported("operator %s on array entries" % type(op).__name__)
+        if isinstance(op, (ast.BitXor, ast.BitAnd, ast.BitOr)) and isinstance(a, (int, np.integer)) and isinstance(b, (int, np.integer)):
+            return {ast.BitXor: operator.xor, ast.BitAnd: operator.and_, ast.BitOr: operator.or_}[type(op)](int(a), int(b))
         if isinstance(a, AbsArr) or isinstance(b, AbsArr):
             return AbsArr(a.shape if isinstance(a, AbsArr) else b.shape)
         if isinstance(op, ast.Div):
@@ -429,6 +541,13 @@ class Interp:
         return f(a, b)
 
     def compare(self, op, a, b):
+        from .sym import Entry as _Entry
+
+        if isinstance(op, ast.Eq) and ((isinstance(a, _Entry) and isinstance(b, (int, np.integer))) or (isinstance(b, _Entry) and isinstance(a, (int, np.integer)))):
+            e_, c_ = (a, b) if isinstance(a, _Entry) else (b, a)
+            if e_.conj:
+                raise Unsupported("comparison of a conjugated entry")
+            return _Entry("[%s==%d]" % (e_.name, int(c_)), e_.idx)  # the 0/1 indicator array of `input == c`: a derived input array
         if isinstance(op, ast.Is):
             return a is b
         if isinstance(op, ast.IsNot):
@@ -533,6 +652,12 @@ class Interp:
                 return getattr(o, e.attr)
             if isinstance(o, list):
                 return ("pymethod", o, e.attr)
+            import types as _types
+
+            if isinstance(o, _types.SimpleNamespace):
+                if not hasattr(o, e.attr):
+                    raise Unsupported("attribute %s of the object" % e.attr)
+                return getattr(o, e.attr)
             if isinstance(o, _Finfo) and e.attr == "eps":
                 return EPS
             raise Unsupported("attribute %s on %s" % (e.attr, type(o).__name__))
@@ -540,7 +665,8 @@ class Interp:
             o = self.ev(e.value, env)
             k = self.ev_slice(e.slice, env)
             if isinstance(o, SymArray):
-                return sym.getitem(o, k)
+                r_ = sym.getitem(o, k)
+                return r_.get(()) if r_.ndim == 0 else r_  # a fully indexed array is its entry
             if isinstance(o, ConstVec):
                 return o[k]
             if isinstance(o, SymList):
@@ -769,7 +895,7 @@ class Interp:
             if all(isinstance(v, (bool, np.bool_)) for v in vals):
                 return any(vals)
             return sp.Or(*[sp.sympify(bool(v)) if isinstance(v, (bool, np.bool_)) else v for v in vals])
-        if q in ("np.zeros", "np.empty"):
+        if q in ("np.zeros", "np.empty", "np.ndarray"):
             shp = args[0]
             if has_sym(shp if isinstance(shp, (tuple, list)) else [shp]):
                 return AbsArr(tuple(shp) if isinstance(shp, (tuple, list)) else (shp,))
